@@ -505,7 +505,8 @@ class Interp:
         if isinstance(f, ExcClass): return Obj(f, {"msg": args[0] if args else None})
         if isinstance(f, Unresolved): raise Unsupported(f"call to unmodelled {f.name}")
         if callable(f): return f(*args, **kw)
-        raise PyRaise(EXC["TypeError"], f"{f!r} not callable")
+        if f is None or isinstance(f, (bool, int, float, str, tuple, list, SArr)) or is_z3(f): raise PyRaise(EXC["TypeError"], f"{f!r} not callable")
+        raise Unsupported(f"call of an engine-level value {type(f).__name__} (abstract library object or namespace without a call model): engine limitation, not a program error")
     def bind_args(self, f, args, kw):
         node = f.node; a = node.args
         params = [x.arg for x in a.posonlyargs + a.args]
@@ -663,7 +664,8 @@ def cmpop(op, a, b):
     try:
         return {"Lt": operator.lt, "LtE": operator.le, "Gt": operator.gt, "GtE": operator.ge, "Eq": operator.eq, "NotEq": operator.ne}[op](a, b)
     except TypeError:
-        raise PyRaise(EXC["TypeError"], f"'{op}' not supported between {type(a).__name__} and {type(b).__name__}")
+        if all(x is None or isinstance(x, (bool, int, float, str, tuple, list)) for x in (a, b)): raise PyRaise(EXC["TypeError"], f"'{op}' not supported between {type(a).__name__} and {type(b).__name__}")
+        raise Unsupported(f"comparison '{op}' of engine-level values {type(a).__name__}, {type(b).__name__} (abstract library objects): engine limitation, not a program error")
 
 def subscript(o, idx):
     from .models import arrays
